@@ -13,8 +13,9 @@
    - [blk_next]         src/base_relocs.rs IterBlocks::next   (peek/advance of Model/Relocs.v)
    - [str_next]         src/strings.rs Enumerator::next       (Model/Strings.v next)
    - [pgo_next]         src/wrap/debug.rs PgoIter::next
-   - [deleg_impl f]     src/pe64/imports.rs Iter, src/pe64/debug.rs Iter: every method passes
-                        the call to the slice::Iter it wraps and maps the item through f
+   - [deleg_impl f]     src/pe64/imports.rs Iter, src/pe64/debug.rs Iter: every method they define passes
+                        the call to the slice::Iter it wraps and maps the item through f; nth_back,
+                        which they do not define, is the provided loop over their next_back
    - [wrap_next]        src/wrap/mod.rs  impl Iterator for Wrap<Iter32, Iter64>: next only
 
    std's slice::Iter is not modelled from its source: [sl_*] state what it is trusted to do. *)
@@ -29,9 +30,10 @@ Record iter_impl (S A : Type) := {
   m_nth : S -> N -> res (option A * S);
   m_size_hint : S -> res (N * option N);
   m_count : S -> res N;
+  m_nth_back : S -> N -> res (option A * S);      (* DoubleEndedIterator::nth_back; only callable when m_full *)
 }.
 Arguments m_full {S A}. Arguments m_next {S A}. Arguments m_next_back {S A}.
-Arguments m_nth {S A}. Arguments m_size_hint {S A}. Arguments m_count {S A}.
+Arguments m_nth {S A}. Arguments m_size_hint {S A}. Arguments m_count {S A}. Arguments m_nth_back {S A}.
 
 Definition opt_out {A} (o : option A) : out A := match o with Some a => OItem a | None => ONone end.
 
@@ -52,6 +54,7 @@ Definition m_step1 {S A} (impl : iter_impl S A) (s : S) (o : op) : res (S * out 
   | SizeHint => h <- m_size_hint impl s ;; Ok (s, OHint (fst h) (snd h))
   | Count => n <- m_count impl s ;; Ok (s, ONum n)          (* it.clone().count() *)
   | Clone => Ok (s, OCloned)
+  | NthBack k => if m_full impl then r <- m_nth_back impl s k ;; Ok (snd r, opt_out (fst r)) else Ok (s, OUnsupported)
   end.
 
 Definition m_step {S A} (impl : iter_impl S A) (pool : list S) (c : nat * op) : res (list S * out A) :=
@@ -120,12 +123,7 @@ Definition rich_next_back (s : rich_st) : res (option rec * rich_st) :=
     Ok (Some (rdecode key a b), (t, key))
   else Ok (None, s).
 
-Definition rich_impl : iter_impl rich_st rec :=
-  {| m_full := true; m_next := rich_next; m_next_back := rich_next_back; m_nth := rich_nth;
-     m_size_hint := rich_size_hint; m_count := rich_count |}.
-Definition rich_impl_orig : iter_impl rich_st rec :=
-  {| m_full := true; m_next := rich_next; m_next_back := rich_next_back; m_nth := rich_nth_orig;
-     m_size_hint := rich_size_hint; m_count := rich_count |}.
+(* [rich_impl] and [rich_impl_orig] are put together below, after the provided loops ([fwd_nth]) they inherit *)
 
 (* RichStructure::records(): the iterator handed out for an accepted DOS area *)
 Definition rich_records_iter (image : list N) (se : nat * nat) : rich_st :=
@@ -177,10 +175,29 @@ Section Fwd.
        m_next_back := fun s => Ok (None, s);                         (* not implemented; never called *)
        m_nth := fun s k => fwd_nth (Datatypes.S (measure s)) s k;
        m_size_hint := fun _ => Ok (0, None);                          (* Iterator::size_hint (provided) *)
-       m_count := fun s => fwd_count (Datatypes.S (measure s)) s 0 |}.
+       m_count := fun s => fwd_count (Datatypes.S (measure s)) s 0;
+       m_nth_back := fun s _ => Ok (None, s) |}.                      (* not implemented; never called *)
   Definition items (s : S) : list A :=
     match collect (Datatypes.S (measure s)) s with Ok l => l | _ => [] end.
 End Fwd.
+
+(* DoubleEndedIterator::nth_back (provided):  if self.advance_back_by(n).is_err() { return None } self.next_back()
+   where advance_back_by(n) is  for i in 0..n { if self.next_back().is_none() { return Err(..) } } Ok(())
+   - the loop of the provided Iterator::nth with next_back in the place of next: at most n calls of next_back that
+   stop at the first None, then one more.  [prov_nth_back next_back fuel] is that loop. *)
+Definition prov_nth_back {S A} (next_back : S -> res (option A * S)) (fuel : nat) (s : S) (k : N) : res (option A * S) :=
+  fwd_nth next_back fuel s k.
+
+(* RichIter implements DoubleEndedIterator with next_back only: nth_back is the provided loop over RichIter::next_back
+   (fuel: one call per remaining dword is more than enough) *)
+Definition rich_nth_back (s : rich_st) (k : N) : res (option rec * rich_st) :=
+  prov_nth_back rich_next_back (Datatypes.S (length (fst s))) s k.
+Definition rich_impl : iter_impl rich_st rec :=
+  {| m_full := true; m_next := rich_next; m_next_back := rich_next_back; m_nth := rich_nth;
+     m_size_hint := rich_size_hint; m_count := rich_count; m_nth_back := rich_nth_back |}.
+Definition rich_impl_orig : iter_impl rich_st rec :=
+  {| m_full := true; m_next := rich_next; m_next_back := rich_next_back; m_nth := rich_nth_orig;
+     m_size_hint := rich_size_hint; m_count := rich_count; m_nth_back := rich_nth_back |}.
 
 (* ---- IterBlocks (base_relocs.rs:121-140); state = (offset of the slice in the directory, slice) ---- *)
 Definition blk_st : Type := N * list N.
@@ -237,17 +254,25 @@ Definition sl_next_back {B} (l : list B) : option B * list B :=
   match rev l with [] => (None, []) | x :: t => (Some x, rev t) end.
 Definition sl_nth {B} (l : list B) (k : N) : option B * list B :=
   if lenN l <=? k then (None, []) else sl_next (skipn (N.to_nat k) l).
+(* slice::Iter overrides nth_back: if n >= len { exhaust; None } else { drop n from the back; next_back } *)
+Definition sl_nth_back {B} (l : list B) (k : N) : option B * list B :=
+  if lenN l <=? k then (None, []) else sl_next_back (firstn (length l - N.to_nat k) l).
 Definition sl_size_hint {B} (l : list B) : N * option N := (lenN l, Some (lenN l)).
 Definition sl_count {B} (l : list B) : N := lenN l.
 
-(* imports::Iter / debug::Iter: self.iter.<method>(args).map(|image| Item { pe, image }) *)
+(* imports::Iter / debug::Iter: self.iter.<method>(args).map(|image| Item { pe, image }) for next, size_hint, count,
+   nth and next_back.  nth_back is NOT overridden (impl DoubleEndedIterator defines next_back only): it is the provided
+   loop over the iterator's own next_back, not slice::Iter::nth_back *)
+Definition deleg_next_back {B A} (f : B -> A) (l : list B) : res (option A * list B) :=
+  Ok (option_map f (fst (sl_next_back l)), snd (sl_next_back l)).
 Definition deleg_impl {B A} (f : B -> A) : iter_impl (list B) A :=
   {| m_full := true;
      m_next := fun l => Ok (option_map f (fst (sl_next l)), snd (sl_next l));
-     m_next_back := fun l => Ok (option_map f (fst (sl_next_back l)), snd (sl_next_back l));
+     m_next_back := deleg_next_back f;
      m_nth := fun l n => Ok (option_map f (fst (sl_nth l n)), snd (sl_nth l n));
      m_size_hint := fun l => Ok (sl_size_hint l);
-     m_count := fun l => Ok (sl_count l) |}.
+     m_count := fun l => Ok (sl_count l);
+     m_nth_back := fun l k => prov_nth_back (deleg_next_back f) (Datatypes.S (length l)) l k |}.
 
 (* Wrap<Iter32, Iter64>: match self { T32(it) => it.next().map(Wrap::T32), T64(it) => it.next().map(Wrap::T64) };
    [tag] is the constructor of the variant the wrapper holds *)
